@@ -190,7 +190,8 @@ def run_sched(ctx, pid, profiles, n_quick, n_thorough, extra=None, monitor_profi
         impl_p = corr.run_impl(binary, probes, pid + "_probes")
         impl.update(impl_p)
         for s in probes:
-            f = probe_verdict(s, impl_p.get(s["name"], []), [impl.get("%s_serial%d" % (s["name"], n), []) for n in range(len(s["serial"]))])
+            f = guard_accounting_check(s, impl_p.get(s["name"], [])) or \
+                probe_verdict(s, impl_p.get(s["name"], []), [impl.get("%s_serial%d" % (s["name"], n), []) for n in range(len(s["serial"]))])
             rp = impl_p.get(s["name"], [])
             eb = s.get("expect_blocked")
             probe_log.append(dict(name=s["name"], stops=[r["ret"][1] for r in rp if r["ret"] and r["ret"][0] == 7 and len(r["ret"]) > 1],
@@ -264,6 +265,36 @@ def probe_verdict(s, recs, serial_recs):
                 what="%s: the overlapped execution ends in a state / with answers that neither serial order produces (first difference at '%s'): got %s; serial orders give %s"
                      % (s.get("note", s["name"])[:160], mine[first or 0][0], mine[first or 0][1:], [view(sr[-n + (first or 0)])[1:] for sr in serial_recs if len(sr) >= n]),
                 observed=[(r["ev"], r["ret"], r["snap"]["used"], r["snap"]["weights"], r["snap"]["store"], r["snap"]["ticker"]) for r in recs[-n:]])
+
+
+def guard_accounting_check(s, recs):
+    """For a probe in which a caller keeps a reference guard on a key (the entry cannot leave the store while the guard is
+    alive): at every total_weight_used() answered between hold_ref and release_ref at a moment when every acknowledgement
+    is resolved, the total is the sum of the weights of the pinned key and of every key whose put is acknowledged as accepted
+    (C05 through the public API; a correct cache cannot have acknowledged an eviction of the pinned key yet)."""
+    ga = s.get("guard_accounting")
+    if not ga:
+        return None
+    weights = {int(k): v for k, v in ga["weights"].items()}
+    pinned, ack_key = set(), {}
+    for i, r in enumerate(recs):
+        if r["skipped"]:
+            continue
+        p = r["ev"].split()
+        if p[0] == "call" and p[2] == "hold_ref" and r["ret"] and r["ret"][0] == 5 and len(r["ret"]) > 1:
+            pinned.add(int(p[3]))
+        if p[0] == "call" and p[2] == "release_ref":
+            pinned.clear()
+        if p[0] == "call" and p[2] == "put_w" and r["ret"] and r["ret"][0] == 0:
+            ack_key[r["ret"][1]] = int(p[3])
+        if p[0] == "call" and p[2] == "weight_used" and r["ret"] and r["ret"][0] == 5 and pinned and all(a != 0 for a in r["acks"]):
+            held = set(pinned) | {k for a, k in ack_key.items() if a < len(r["acks"]) and r["acks"][a] == 1}
+            want = sum(weights[k] for k in held)
+            if r["ret"][1] != want:
+                return dict(signature="weight-not-counted-for-held-key", name=s["name"], config=s["cfg"], events=s["events"][: i + 1], no_shrink=True,
+                            what="every acknowledgement is resolved (put of %s acknowledged as accepted) while a reference guard pins key %s in the store: the keys held weigh %d, total_weight_used() answers %d"
+                                 % (sorted(held - pinned), sorted(pinned), want, r["ret"][1]))
+    return None
 
 
 def neighbourhood(divs, limit=6):
